@@ -32,12 +32,12 @@ func init() {
 			if tier == "thorough" {
 				return n + 300000
 			}
-			return n + 2400
+			return n + 1500
 		},
 		Gen: func(r *Rand, idx int, tier string) map[string]any {
 			n := enumCount(len(tokenAlphabet), c06Token(tier))
 			if idx < n {
-				return map[string]any{"text": hx(enumString(tokenAlphabet, idx)), "src": "enum", "cmds": idx%25 == 0}
+				return map[string]any{"text": hx(enumString(tokenAlphabet, idx)), "src": "enum", "cmds": idx%60 == 0}
 			}
 			switch r.Weighted(3, 3, 2, 2) {
 			case 0:
